@@ -101,16 +101,23 @@ func genCase(t *rapid.T) Case {
 		"alice00000000042", "Xjqaaaaayfo5aO0K"}
 	// (ids with an element that begins with a dot are ids like any other; they are kept in front of the twins)
 	users = append([]string{".alice", "team/.bots"}, users...)
+	// (one pair in which an id continues the other below a slash: the shard directories of org7/col1 lie below
+	// the directory of org7's collection col1; when both are drawn both own a collection called col1)
+	users = append([]string{"org7", "org7/col1"}, users...)
+	nestedPair := rapid.IntRange(0, 7).Draw(t, "nestedPair") == 0
 	nc := rapid.IntRange(1, 5).Draw(t, "ncols")
 	seen := map[string]bool{}
 	twins := rapid.IntRange(0, 5).Draw(t, "twins") == 0 // both ids of the colliding pair own a collection
-	if twins && nc < 2 {
+	if (twins || nestedPair) && nc < 2 {
 		nc = 2
 	}
 	for i := 0; i < nc; i++ {
 		cs := ColSpec{User: rapid.SampledFrom(users).Draw(t, fmt.Sprintf("user%d", i)), Col: rapid.SampledFrom([]string{"abc", "col1", "col2"}).Draw(t, fmt.Sprintf("col%d", i)), Points: rapid.IntRange(0, 5).Draw(t, fmt.Sprintf("np%d", i))}
 		if twins && i < 2 {
 			cs.User = users[len(users)-2+i]
+		}
+		if nestedPair && !twins && i < 2 {
+			cs.User, cs.Col = users[i], "col1"
 		}
 		if seen[cs.User+"/"+cs.Col] {
 			continue
@@ -303,6 +310,9 @@ func (e *env) records(users []string) (map[string][]int, map[string]models.Colle
 				return nil, nil, fmt.Errorf("node %d: %v", k, err)
 			}
 			for _, col := range resp.Collections {
+				if col.UserId != u {
+					continue // (the listing of a user id also returns the records of ids that continue it below a slash)
+				}
 				key := col.UserId + "/" + col.Id
 				holders[key] = append(holders[key], k)
 				recs[key] = col
